@@ -22,8 +22,11 @@ __attribute__((used, visibility("default"))) const char* __asan_default_options(
          "detect_stack_use_after_return=0:external_symbolizer_path=/usr/bin/llvm-symbolizer-14:"
          "handle_abort=0:print_summary=1:max_malloc_fill_size=4096:malloc_fill_byte=190";
 }
-__attribute__((used, visibility("default"))) const char* __ubsan_default_options() {
-  return "print_stacktrace=1:halt_on_error=1:exitcode=77:external_symbolizer_path=/usr/bin/llvm-symbolizer-14";
+// a world binary may supply its own UBSan options (e.g. no stack traces when it filters recoverable reports)
+extern const char* zsim_ubsan_options __attribute__((weak));
+__attribute__((used, visibility("default"), no_sanitize("address", "undefined"))) const char* __ubsan_default_options() {
+  if (&zsim_ubsan_options && zsim_ubsan_options) return zsim_ubsan_options;
+  return "print_stacktrace=1:exitcode=77:external_symbolizer_path=/usr/bin/llvm-symbolizer-14";
 }
 }
 
@@ -97,6 +100,7 @@ bool Plan::from_json(const Json& j, Plan& p) {
 void RunCtx::fail(const std::string& cls_, const char* fmt, ...) {
   char buf[2048];
   va_list ap; va_start(ap, fmt); vsnprintf(buf, sizeof buf, fmt, ap); va_end(ap);
+  HarnessScope hs;
   if (verbose) fprintf(stderr, "  !! FAIL %s: %s\n", cls_.c_str(), buf);
   if (failed) return;
   failed = true; cls = cls_; detail = buf;
@@ -209,16 +213,6 @@ static std::string classify_death(const std::string& err, int status, std::strin
     if (parts.size() >= 2) return "assert@" + basename_of(parts[1]);
     return "assert@?";
   }
-  if ((p = err.find("runtime error: ")) != std::string::npos) {
-    size_t ls = err.rfind('\n', p); ls = (ls == std::string::npos) ? 0 : ls + 1;
-    std::string loc = err.substr(ls, p - ls);  // "/repo/src/x.c:12:3: "
-    detail = err.substr(ls, err.find('\n', p) - ls);
-    // strip trailing ": " and the column
-    while (!loc.empty() && (loc.back() == ' ' || loc.back() == ':')) loc.pop_back();
-    size_t c = loc.rfind(':');
-    if (c != std::string::npos) loc = loc.substr(0, c);
-    return "ubsan@" + basename_of(loc);
-  }
   if ((p = err.find("ERROR: AddressSanitizer: ")) != std::string::npos) {
     size_t e = err.find_first_of(" \n", p + 25);
     std::string kind = err.substr(p + 25, e - (p + 25));
@@ -242,6 +236,16 @@ static std::string classify_death(const std::string& err, int status, std::strin
       if (le == std::string::npos) break;
     }
     return "asan:" + kind + "@" + where;
+  }
+  if ((p = err.find("runtime error: ")) != std::string::npos) {
+    size_t ls = err.rfind('\n', p); ls = (ls == std::string::npos) ? 0 : ls + 1;
+    std::string loc = err.substr(ls, p - ls);  // "/repo/src/x.c:12:3: "
+    detail = err.substr(ls, err.find('\n', p) - ls);
+    // strip trailing ": " and the column
+    while (!loc.empty() && (loc.back() == ' ' || loc.back() == ':')) loc.pop_back();
+    size_t c = loc.rfind(':');
+    if (c != std::string::npos) loc = loc.substr(0, c);
+    return "ubsan@" + basename_of(loc);
   }
   if (WIFSIGNALED(status)) { detail = "killed by signal"; return "crash:signal" + std::to_string(WTERMSIG(status)); }
   detail = "unexpected exit";
